@@ -269,7 +269,10 @@ class MediaCodecInformation:
                     return media_codec_information_class.from_bytes(
                         vendor_media_codec_information.value
                     )
-        return vendor_media_codec_information
+                return vendor_media_codec_information
+            case _:
+                # No class for this codec type: keep the raw information bytes
+                return data
 
     @classmethod
     def from_bytes(cls, data: bytes) -> Self:
